@@ -3,13 +3,19 @@ import ArcaModel.Model.WFCheck
 /-
   C01  Serialize and Unserialize are mutual inverses.
 
-  Proved for every schema of the modelled kinds whose one-ofs do not inline the discriminator
-  (`WF1`), every raw value and every externals: whatever Unserialize accepts passes Validate,
-  serializes, and unserializing the serialized form yields the identical value, whose
-  serialization is identical again. What is NOT covered by a theorem (hence `_partial`): one-ofs
-  with an inlined discriminator, the CBOR leg (the encode/decode type normalisation), the typed
-  entry points, struct-mapped objects. Those are covered by the correspondence run and the
-  chain oracle of the check only.
+  Proved for every schema of the modelled kinds (`WF1`), every raw value and every externals:
+  whatever Unserialize accepts passes Validate, serializes, and unserializing the serialized form
+  yields the identical value, whose serialization is identical again. One-ofs are covered in BOTH
+  modes: discriminator not inlined (members must not declare the discriminator) and discriminator
+  inlined (members must declare it with a type of the one-of's key kind) - in each mode `WF1` asks
+  exactly what `ApplyNamespace` / `validateSubtypeDiscriminatorInlineFields` enforces by panicking,
+  and nothing more (see the docstring of `WF1`; `C01_inlined_needs_key_kind` and
+  `C01_inlined_needs_key_kind_int` below show that the key-kind condition cannot be dropped).
+
+  What is NOT covered by a theorem (hence `_partial`): the CBOR leg (the encode/decode type
+  normalisation), the typed entry points (`UnserializeType`, `SerializeType`, ...), struct-mapped
+  objects. Those lie outside the model `run` and are covered by the correspondence run and the
+  chain oracle of the check only. Within the model nothing is missing any more.
 -/
 namespace Arca
 open Out
@@ -20,7 +26,7 @@ theorem C01_roundtrip_partial (x : Ext) (fuel : Nat) (env : Env) (t : Ty) (v r :
     (henv : EnvWF1 env) (hwf : WF1 env t) (h : run x fuel .U env t v = .ok r) :
     run x fuel .V env t r = done ∧
     ∃ w, run x fuel .S env t r = .ok w ∧ run x fuel .U env t w = .ok r :=
-  (rt_aux x fuel env t henv hwf).1 v r h
+  (rt_aux' x fuel env t henv hwf).1 v r h
 
 /-- Serialize ∘ Unserialize is idempotent on wire forms: unserializing a serialized form and
     serializing again yields the identical wire form. -/
@@ -60,6 +66,41 @@ theorem declaresB_complete {env : Env} {disc : String} {t : Ty} (h : declaresB e
   · intro oid ps hl
     simpa [hl] using h
 
+def declaresTypedB (env : Env) (ik : Bool) (disc : String) : Ty → Bool
+  | .obj _ props => match lookupS disc props with
+    | some p => discTyOK ik p.ty
+    | none => false
+  | .ref id => match lookupS id env with
+    | some (.obj _ ps) => (match lookupS disc ps with
+      | some p => discTyOK ik p.ty
+      | none => false)
+    | _ => false
+  | .scope objs root => match lookupS root objs with
+    | some (.obj _ ps) => (match lookupS disc ps with
+      | some p => discTyOK ik p.ty
+      | none => false)
+    | _ => false
+  | _ => false
+
+theorem declaresTypedB_sound {env : Env} {ik : Bool} {disc : String} {t : Ty} (h : declaresTypedB env ik disc t = true) :
+    declaresTyped env ik disc t := by
+  cases t <;> simp only [declaresTypedB, Bool.false_eq_true] at h <;> simp only [declaresTyped]
+  · split at h
+    · rename_i p hp; exact ⟨p, hp, h⟩
+    · simp at h
+  · split at h
+    · rename_i oid ps hl
+      split at h
+      · rename_i p hp; exact ⟨oid, ps, p, hl, hp, h⟩
+      · simp at h
+    · simp at h
+  · split at h
+    · rename_i oid ps hl
+      split at h
+      · rename_i p hp; exact ⟨oid, ps, p, hl, hp, h⟩
+      · simp at h
+    · simp at h
+
 def wf1B : Nat → Env → Ty → Bool
   | 0, _, _ => false
   | n + 1, env, t =>
@@ -68,7 +109,9 @@ def wf1B : Nat → Env → Ty → Bool
     | .list item _ _ => wf1B n env item
     | .map k v _ _ => wf1B n env k && wf1B n env v
     | .obj _ props => props.all fun np => wf1B n env np.2.ty
-    | .oneOf _ d inl members => !inl && members.all fun m => wf1B n env m.2 && objLikeB env m.2 && !declaresB env d m.2
+    | .oneOf ik d inl members =>
+      if inl then members.all fun m => wf1B n env m.2 && declaresTypedB env ik d m.2
+      else members.all fun m => wf1B n env m.2 && objLikeB env m.2 && !declaresB env d m.2
     | .ref id => (lookupS id env).isSome
     | .scope objs root => (lookupS root objs).isSome && objs.all fun p => wf1B n objs p.2
 
@@ -93,11 +136,15 @@ theorem wf1B_sound : ∀ (n : Nat) (env : Env) (t : Ty), wf1B n env t = true →
       simp only [wf1B, List.all_eq_true] at h
       exact .obj (fun np hnp => ih _ _ (h np hnp))
     | oneOf ik d inl members =>
-      simp only [wf1B, List.all_eq_true, Bool.and_eq_true, Bool.not_eq_true'] at h
-      obtain ⟨hinl, hm⟩ := h
-      subst hinl
-      exact .oneOf (fun m hmm => ih _ _ (hm m hmm).1.1) (fun m hmm => objLikeB_sound (hm m hmm).1.2)
-        (fun m hmm => declaresB_complete (hm m hmm).2)
+      simp only [wf1B] at h
+      cases inl with
+      | true =>
+        simp only [if_true, List.all_eq_true, Bool.and_eq_true] at h
+        exact .oneOfInl (fun m hmm => ih _ _ (h m hmm).1) (fun m hmm => declaresTypedB_sound (h m hmm).2)
+      | false =>
+        simp only [Bool.false_eq_true, if_false, List.all_eq_true, Bool.and_eq_true, Bool.not_eq_true'] at h
+        exact .oneOf (fun m hmm => ih _ _ (h m hmm).1.1) (fun m hmm => objLikeB_sound (h m hmm).1.2)
+          (fun m hmm => declaresB_complete (h m hmm).2)
     | ref id =>
       simp only [wf1B] at h
       cases hl : lookupS id env with
@@ -124,7 +171,108 @@ def c01Example : Ty :=
 
 example : WF1 [] c01Example := wf1B_sound 10 [] c01Example (by decide)
 
+/-! ### inlined one-ofs: a non-trivial instance, and why the key-kind condition is needed -/
+
+def c01Ext : Ext := ⟨fun _ => none, fun _ => "", fun _ => true, fun _ _ => true⟩
+
+def c01Bytes : Units := ⟨⟨"B", "B", "byte", "bytes"⟩, [(1024, ⟨"kB", "kB", "kilobyte", "kilobytes"⟩)]⟩
+
+/-- Inlined one-ofs of both key kinds: a string-keyed one over references inside a list (one member
+    declares the discriminator as a required bounded string, the other as an optional string enum
+    with a default and a conflict rule); an int-keyed one whose members declare the discriminator
+    as a required bounded int WITH UNITS and as an int enum, the second member recursing to the
+    root; and a non-inlined one-of next to them. -/
+def c01InlExample : Ty :=
+  .scope
+    [("Root", .obj "Root"
+        [("shapes", .mk (.list (.oneOf false "kind" true [(.s "circle", .ref "Circle"), (.s "rect", .ref "Rect")])
+            none (some 4)) true [] [] [] none false),
+         ("level", .mk (.oneOf true "v" true
+            [(.i 1, .obj "V1" [("v", .mk (.int (some 0) (some 9) (some c01Bytes)) true [] [] [] none false),
+                               ("a", .mk .bool false [] [] [] none false)]),
+             (.i 2, .obj "V2" [("v", .mk (.enumInt [2, 3] none) false [] [] [] none false),
+                               ("next", .mk (.ref "Root") false [] [] [] none false)])]) false [] [] [] none false),
+         ("plain", .mk (.oneOf false "kind" false [(.s "c", .obj "C" [])]) false [] [] [] none false)]),
+     ("Circle", .obj "Circle"
+        [("kind", .mk (.str (some 1) (some 10) none) true [] [] [] none false),
+         ("r", .mk (.int (some 0) none none) true [] [] [] none false)]),
+     ("Rect", .obj "Rect"
+        [("kind", .mk (.enumStr ["rect", "square"]) false [] [] ["r"] (some ⟨some (.str "square"), none⟩) false),
+         ("w", .mk (.int none none none) false [] [] [] (some ⟨some (.int .int64 0), none⟩) false),
+         ("r", .mk (.int none none none) false [] [] [] none false)])]
+    "Root"
+
+example : WF1 [] c01InlExample := wf1B_sound 10 [] c01InlExample (by decide)
+
+/-- the theorem on that schema -/
+example (x : Ext) (fuel : Nat) (v r : V) (h : run x fuel .U [] c01InlExample v = .ok r) :
+    run x fuel .V [] c01InlExample r = done ∧
+    ∃ w, run x fuel .S [] c01InlExample r = .ok w ∧ run x fuel .U [] c01InlExample w = .ok r :=
+  C01_roundtrip_closed_partial x fuel c01InlExample v r (wf1B_sound 10 [] c01InlExample (by decide)) h
+
+/-- an input it accepts (so the instance is not vacuous): both string members, the int member with
+    units given as the string "1", a nested level through the recursive member -/
+def c01InlInput : V :=
+  .map .anyAny
+    [(.str "shapes", .list
+        [.map .anyAny [(.str "kind", .str "circle"), (.str "r", .int .int 2)],
+         .map .strAny [(.str "kind", .str "rect"), (.str "w", .str "7")]]),
+     (.str "level", .map .anyAny
+        [(.str "v", .float .f64 0x4000000000000000),
+         (.str "next", .map .anyAny
+            [(.str "shapes", .list []),
+             (.str "level", .map .anyAny [(.str "v", .str "1"), (.str "a", .str "yes")])])])]
+
+example : (run c01Ext 12 .U [] c01InlExample c01InlInput).isOk = true := by decide
+
+/-- The key-kind condition of the inlined clause (`discTyOK`) cannot be dropped - string keys.
+    Schema: string-keyed inlined one-of on "k", single member "5" = object B {k : int}.
+    Raw input {"k": "5"}.  Unserialize accepts (the member converts "5" to the integer 5, the one-of
+    then overwrites it with its own converted key, the string "5") and returns the
+    `map[string]any{"k": "5"}`; Validate and Serialize of that value both fail (the member's int
+    property rejects a string).  `NewOneOfStringSchema` + `ApplyNamespace` refuse this schema (kind
+    `int64` ≠ kind `string`), so this is not a defect of the SDK but the reason for the condition. -/
+def c01BadKindS : Ty :=
+  .oneOf false "k" true [(.s "5", .obj "B" [("k", .mk (.int none none none) false [] [] [] none false)])]
+
+theorem C01_inlined_needs_key_kind :
+    run c01Ext 3 .U [] c01BadKindS (.map .anyAny [(.str "k", .str "5")]) = .ok (.map .strAny [(.str "k", .str "5")]) ∧
+    (run c01Ext 3 .V [] c01BadKindS (.map .strAny [(.str "k", .str "5")])).isErr = true ∧
+    (run c01Ext 3 .S [] c01BadKindS (.map .strAny [(.str "k", .str "5")])).isErr = true :=
+  ⟨rfl, by decide, by decide⟩
+
+example : wf1B 10 [] c01BadKindS = false := by decide
+
+/-- The same for int keys.  Schema: int-keyed inlined one-of on "k", single member 5 = object
+    B {k : string}.  Raw input {"k": 5}.  Unserialize accepts and returns
+    `map[string]any{"k": int64(5)}`; Validate passes and Serialize succeeds - but `reflect` converts
+    the integer 5 to the one-rune string "\x05", so the serialized form is {"k": "\x05"}, which
+    Unserialize rejects (not a decimal integer).  Also refused by the constructors. -/
+def c01BadKindI : Ty :=
+  .oneOf true "k" true [(.i 5, .obj "B" [("k", .mk (.str none none none) false [] [] [] none false)])]
+
+theorem C01_inlined_needs_key_kind_int :
+    run c01Ext 3 .U [] c01BadKindI (.map .anyAny [(.str "k", .int .int 5)]) = .ok (.map .strAny [(.str "k", .int .int64 5)]) ∧
+    run c01Ext 3 .V [] c01BadKindI (.map .strAny [(.str "k", .int .int64 5)]) = done ∧
+    run c01Ext 3 .S [] c01BadKindI (.map .strAny [(.str "k", .int .int64 5)]) = .ok (.map .strAny [(.str "k", .str "\x05")]) ∧
+    (run c01Ext 3 .U [] c01BadKindI (.map .strAny [(.str "k", .str "\x05")])).isErr = true :=
+  ⟨rfl, rfl, rfl, by decide⟩
+
+example : wf1B 10 [] c01BadKindI = false := by decide
+
+/-- Nothing beyond the key kind is needed. E.g. a discriminator property whose own constraints
+    exclude the member's key (here: an enum without the key "b") is harmless: the member rejects
+    the input at Unserialize, so there is nothing to round-trip. -/
+def c01Excluding : Ty :=
+  .oneOf false "k" true [(.s "a", .obj "A" [("k", .mk (.enumStr ["a"]) true [] [] [] none false)]),
+                         (.s "b", .obj "B" [("k", .mk (.enumStr ["a"]) true [] [] [] none false)])]
+
+example : wf1B 10 [] c01Excluding = true := by decide
+example : (run c01Ext 3 .U [] c01Excluding (.map .anyAny [(.str "k", .str "b")])).isErr = true := by decide
+example : (run c01Ext 3 .U [] c01Excluding (.map .anyAny [(.str "k", .str "a")])).isOk = true := by decide
+
 #print axioms C01_roundtrip_partial
 #print axioms C01_serialize_idempotent_partial
+#print axioms C01_roundtrip_closed_partial
 
 end Arca
